@@ -8,11 +8,16 @@
 mod common;
 
 mod c01;
+mod c02;
 mod c03;
 mod c04;
 mod c05;
 mod c06;
+mod c09;
+mod c09_recipe;
+mod c11;
 mod c12;
+mod c13;
 mod c14;
 mod gen_recipe;
 mod image;
@@ -36,11 +41,15 @@ type ReplayFn = fn(&str, &serde_json::Value) -> Verdict;
 fn dispatch(id: &str) -> Option<(fn(Tier) -> i32, ReplayFn)> {
     Some(match id {
         "C01" => (c01::run, c01::replay),
+        "C02" => (c02::run, c02::replay),
         "C03" => (c03::run, c03::replay),
         "C04" => (c04::run, c04::replay),
         "C05" => (c05::run, c05::replay),
         "C06" => (c06::run, c06::replay),
+        "C09" => (c09::run, c09::replay),
+        "C11" => (c11::run, c11::replay),
         "C12" => (c12::run, |_p, j| c12::replay(j)),
+        "C13" => (c13::run, c13::replay),
         "C14" => (c14::run, c14::replay),
         _ => return None,
     })
